@@ -50,6 +50,11 @@ Inductive kinput :=
 | KinCooCoo (n_row n_col : Z) (a b : csr Z)               (* COO operands as (data, coords[1], indptr) *)
 | KinCooNd (rows cols data : list Z) (array2 : dense Z) (out_rows out_cols : Z)
 | KinCscNdSparse (m n p : Z) (a : csr Z) (b : dense Z)     (* a: CSC triple of the m x n left operand *)
+| KinCsrNd (sp : bool) (m p : Z) (a : csr Z) (b : dense Z)        (* _dot_csr_ndarray / _sparse; a: CSR triple *)
+| KinCscNd (m n p : Z) (a : csr Z) (b : dense Z)                  (* _dot_csc_ndarray; a: CSC triple *)
+| KinNdCoo (m n p : Z) (a1 : dense Z) (r2 c2 d2 : list Z)         (* _dot_ndarray_coo; cells of b *)
+| KinNdCooSp (m n p : Z) (a1 : dense Z) (c2 r2 d2 : list Z)       (* _dot_ndarray_coo_sparse; cells of b.T *)
+| KinCooNdSp (rows cols data : list Z) (array2 : dense Z) (out_rows out_cols : Z)
 | KinSpec (a b : dense Z).                                (* kernels compared with the Spec only *)
 
 Definition kres_csr_sarr (n_row n_col : Z) (r : kres (csr Z)) : sarr :=
@@ -117,6 +122,43 @@ Definition judge_kernel (c : kinput * sarr) : Z :=
     | KTail => 6
     | _ => 4
     end
+  | KinCsrNd sp m p a b =>
+    let '(n_in, _) := dshape2 b in
+    let sp_ := spec_flat (csr_dense m n_in a) b in
+    let bf := mat_fn p (d_flat b) in
+    let mo := if sp then
+                match dot_csr_ndarray_sparse Z 0 Z.add Z.mul Z.eqb m p a bf with
+                | KOk r => SGcxs (mkGCXS [m; p] [0] (m_data r) (m_indices r) (m_indptr r) 0)
+                | _ => SOther end
+              else SDense (mkDense [m; p] (tab2 Z m p (dot_csr_ndarray Z 0 Z.add Z.mul m p a bf))) in
+    if sarr_eqb impl mo then (if same_as_spec mo sp_ then 0 else 4)
+    else if same_as_spec impl sp_ then 1 else 2
+  | KinCscNd m n p a b =>
+    let sp_ := spec_flat (mkDense [m; n] (mat_flat Z m n (fun i j => csr_to_mat a j i))) b in
+    let mo := SDense (mkDense [m; p] (tab2 Z m p (dot_csc_ndarray Z 0 Z.add Z.mul n p a (mat_fn p (d_flat b))))) in
+    if sarr_eqb impl mo then (if same_as_spec mo sp_ then 0 else 4)
+    else if same_as_spec impl sp_ then 1 else 2
+  | KinNdCoo m n p a1 r2 c2 d2 =>
+    let sp_ := spec_flat a1 (mkDense [n; p] (mat_flat Z n p (coo_cells_den Z 0 r2 c2 d2))) in
+    let mo := SDense (mkDense [m; p] (tab2 Z m p (dot_ndarray_coo Z 0 Z.add Z.mul m (mat_fn n (d_flat a1)) r2 c2 d2))) in
+    if sarr_eqb impl mo then (if same_as_spec mo sp_ then 0 else 4)
+    else if same_as_spec impl sp_ then 1 else 2
+  | KinNdCooSp m n p a1 c2 r2 d2 =>
+    let sp_ := spec_flat a1 (mkDense [n; p] (mat_flat Z n p (fun r j => coo_cells_den Z 0 c2 r2 d2 j r))) in
+    let o := dot_ndarray_coo_sparse Z 0 Z.add Z.mul Z.eqb m (mat_fn n (d_flat a1)) c2 r2 d2 in
+    let mo := SCoo (mkCOO [m; p] (map (fun t => [fst (fst t); snd (fst t)]) o) (map snd o) 0) in
+    if sarr_eqb impl mo then (if same_as_spec mo sp_ then 0 else 4)
+    else if same_as_spec impl sp_ then 1 else 2
+  | KinCooNdSp rows cols data array2 out_rows out_cols =>
+    let '(_, n_in) := dshape2 array2 in
+    let a2 := mat_fn n_in (d_flat array2) in
+    let sp_ := spec_flat (mkDense [out_rows; n_in] (mat_flat Z out_rows n_in (coo_cells_den Z 0 rows cols data)))
+                         (mkDense [n_in; out_cols] (mat_flat Z n_in out_cols (fun c j => a2 j c))) in
+    let mo := match dot_coo_ndarray_sparse Z 0 Z.add Z.mul Z.eqb (S (length data)) rows cols data a2 out_cols with
+              | KOk o => SCoo (mkCOO [out_rows; out_cols] (map (fun t => [fst (fst t); snd (fst t)]) o) (map snd o) 0)
+              | KFuel => SHang | _ => SOther end in
+    if sarr_eqb impl mo then (match mo with SCoo _ => if same_as_spec mo sp_ then 0 else 4 | _ => 0 end)
+    else if same_as_spec impl sp_ then 1 else 2
   | KinSpec a b => if same_as_spec impl (spec_flat a b) then 0 else 5
   end.
 
@@ -186,4 +228,21 @@ Definition judge_api (c : acase) : Z :=
         else 0
       | _, _ => 22
       end
+  end.
+
+(* ---------------------------------------------------------------- einsum with one operand *)
+(* (lhs labels, rhs labels, operand, NumPy's answer, implementation's answer):
+   0 ok | 22 Spec (np_einsum1, evaluated here) <> NumPy | 20 implementation <> NumPy | 10/12 hang / exception *)
+Definition ecase := (list Z * list Z * dense Z * sarr * sarr)%type.
+Definition judge_einsum1 (c : ecase) : Z :=
+  let '(lhs, rhs, a, npres, impl) := c in
+  let arr_a := mkArr (d_shape a) (fun ix => znth (d_flat a) (ravel (d_shape a) ix) 0) in
+  let r := np_einsum1 Z 0 Z.add lhs rhs arr_a in
+  let spec_flat := map (a_at r) (all_indices (a_shape r)) in
+  match impl with
+  | SHang => 10
+  | SExc _ | SOther => if is_exc npres then 0 else 12
+  | _ =>
+    if negb (sarr_same_dense npres (a_shape r) spec_flat) then 22
+    else if negb (sarr_same_dense impl (a_shape r) spec_flat) then 20 else 0
   end.
